@@ -146,7 +146,9 @@ func (e *env) serve() {
 			if status&rc.StatEOM != 0 {
 				m := msg[id]
 				msg[id] = nil
-				if len(m) > 0 && m[0] == rc.TokLogout && e.answerLogout {
+				// (Close's logout may have been appended to a message another goroutine was
+				// sending on the channel: a server answers the logout wherever it stands)
+				if n := len(m); n >= 2 && (m[0] == rc.TokLogout || (m[n-2] == rc.TokLogout && m[n-1] == 0)) && e.answerLogout {
 					d := e.logoutDelay
 					go func(id int) {
 						time.Sleep(d)
@@ -912,7 +914,10 @@ func genCase(rt *rapid.T, kind string) c13Case {
 		// if the consumer wins, Close waits for the library's one-minute logout timeout -
 		// bounded, but too slow for this tier (covered by TestSilentPeer in thorough)
 		c.Blocked = c.Logical && rapid.Bool().Draw(rt, "blocked")
-		c.Parked = c.Logical && rapid.IntRange(0, 2).Draw(rt, "parked") == 0
+		// (a send parked in the transport while Close comes: on a logical channel Close's teardown
+		// waits for the packet being written, on the main channel its logout waits for the whole
+		// message being sent)
+		c.Parked = rapid.IntRange(0, 2).Draw(rt, "parked") == 0
 		if c.Parked {
 			c.Packets = rapid.IntRange(1, 3).Draw(rt, "parked-request-packets")
 		}
